@@ -90,6 +90,8 @@ Nop == ExprS(Call(100, <<>>))
 \* the driver demands the strict verdict or, failing that, agreement with the relaxed one and counts it.
 B(name, slot) == [name |-> name, cls |-> "strict", slot |-> slot]
 BD(name, slot) == [name |-> name, cls |-> "deferred", slot |-> slot]
+\* cls "dual": a base that is not claimed to be well-typed (TypeRules decides; strict verdict demanded)
+BX(name, slot) == [name |-> name, cls |-> "dual", slot |-> slot]
 Bases == <<
     B("arith-int",    << Assign(I0, "=", Bin("+", I1, IL(2))) >>),
     B("arith-float",  << Assign(F0, "=", Bin("*", F1, FL(3, 1))) >>),
@@ -150,6 +152,21 @@ Bases == <<
     B("times-lit",    << Times(IL(3), <<Nop>>) >>),
     B("times-var",    << Times(Bin("+", I0, IL(1)), <<Nop>>) >>),
     B("times-clobber", << TimesC(I1, I0, <<Nop>>) >>),
+    \* the same constructs with *consistently* float operands: where a rule asks for "the same type" AND "int", a checker
+    \* that only compares the two operands with each other accepts these (no single-point mutation of a well-typed
+    \* statement reaches them: the two errors cancel)
+    BX("times-clobber-float", << TimesC(F1, F0, <<Nop>>) >>),
+    BX("times-clobber-float-lit", << TimesC(F1, FL(4, 0), <<Nop>>) >>),
+    BX("times-float",  << Times(F0, <<Nop>>) >>),
+    BX("while-float",  << While(F0, <<Nop>>) >>),
+    BX("if-float",     << If("if", F0, <<Nop>>) >>),
+    BX("predec-float", << Label("L"), Nop, IfGoto("if", PreDec(F0), "L") >>),
+    BX("mod-assign-float-both", << Assign(F0, "%=", F1) >>),
+    BX("and-assign-float-both", << Assign(F0, "&=", F1) >>),
+    BX("shl-assign-float-both", << Assign(F0, "<<=", F1) >>),
+    BX("logical-float-both", << Assign(I0, "=", Bin("&&", F0, F1)) >>),
+    BX("bit-float-both", << Assign(F0, "=", Bin("|", F0, F1)) >>),
+    BX("tern-float-cond", << Assign(F0, "=", Tern(F1, F0, F1)) >>),
     B("expr-stmt",    << ExprS(Call(101, <<Bin("+", I0, IL(1))>>)) >>),
     BD("interrupt",   << [k |-> "interrupt", e |-> IL(1)] >>),
     BD("interrupt-e", << [k |-> "interrupt", e |-> Bin("+", IL(1), IL(2))] >>),
@@ -291,7 +308,7 @@ Spec == Init /\ [][Next]_c
 \* "wherever in the script the offending construct sits": the verdict depends on the slot only
 PositionIndependent == Cases[c].ok = TopOk[Cases[c].variant]
 \* the unmutated constructs are well-typed at every position
-BasesWellTyped == Cases[c].m = "none" => Cases[c].ok
+BasesWellTyped == (Cases[c].m = "none" /\ Cases[c].cls # "dual") => Cases[c].ok
 \* a well-typed program has no ill-typed expression node; a program refused under the relaxed
 \* reading of R10 is refused under the strict one
 AcceptedHaveTypes == Cases[c].ok => \A j \in 1..Len(Cases[c].types) : Cases[c].types[j] \in ValueTys \cup {"void"}
